@@ -70,6 +70,14 @@ class Gen(object):
             return g.mcall(g.mcall(self.listexpr(d - 1, sc), 'select', self.lam(d - 1, sc, 1)), 'toList')
         if k < 0.45:
             return g.mcall(g.mcall(self.listexpr(d - 1, sc), 'where', g.bn(r.choice(['>', '<', '=', '!=']), self.lam(d - 1, sc, 1), g.c(r.randint(0, 3)))), 'toList')
+        if k < 0.5:
+            # a lambda passed by keyword is a lambda all the same: its names resolve where it is written, `$` is the element
+            kk = r.random()
+            if kk < 0.4:
+                return g.mcall(g.mcall(self.listexpr(d - 1, sc), 'distinct', keySelector=self.lam(d - 1, sc, 1)), 'toList')
+            if kk < 0.7:
+                return g.mcall(g.mcall(g.mcall(self.listexpr(d - 1, sc), 'toDict', g.var(''), valueSelector=self.lam(d - 1, sc, 1)), 'values'), 'toList')
+            return g.mcall(g.mcall(self.listexpr(d - 1, sc), 'select', selector=self.lam(d - 1, sc, 1)), 'toList')
         if k < 0.55:
             return g.lst(*[self.expr(d - 1, sc) for _ in range(r.randint(0, 3))])
         if k < 0.65:
@@ -140,17 +148,27 @@ class Gen(object):
         return g.attr(g.mp((g.kwd('k'), self.expr(d - 1, sc))), 'k')
 
 
-FIXED = [
-    # the probes the language reference and the property single out
-    "let(x => 1) -> def(f, $x) -> let(x => 5) -> f()",
-    "[1, 2].aggregate([$1, $2, [7].select($2)])",
-    "let(x => 1) -> [let(x => 2) -> $x, $x]",
-    "[1, 2].select(let(y => $) -> [3].select($ + $y))",
-    "$unknown",
-    "[[1, 2], [3]].select($.select($ * 2))",
-    "with(1, 2) -> [$1, $2, $]",
-    "[1, 2].select($1) = [1, 2].select($)",
-]
+def fixed_probes():
+    """the probes the language reference and the property single out (as ASTs)"""
+    c, v, X = g.c, g.var, g.var('')
+    arrow = lambda a, b: g.bn('->', a, b)
+    one_two = g.lst(c(1), c(2))
+    return [
+        arrow(g.call('let', x=c(1)), arrow(g.call('def', g.kwd('f'), v('x')), arrow(g.call('let', x=c(5)), g.call('f')))),
+        g.mcall(one_two, 'aggregate', g.lst(v('1'), v('2'), g.mcall(g.mcall(g.lst(c(7)), 'select', v('2')), 'toList'))),
+        arrow(g.call('let', x=c(1)), g.lst(arrow(g.call('let', x=c(2)), v('x')), v('x'))),
+        g.mcall(g.mcall(one_two, 'select', arrow(g.call('let', y=X), g.mcall(g.mcall(g.lst(c(3)), 'select', g.bn('+', X, v('y'))), 'toList'))), 'toList'),
+        v('unknown'),
+        g.mcall(g.mcall(g.lst(one_two, g.lst(c(3))), 'select', g.mcall(g.mcall(X, 'select', g.bn('*', X, c(2))), 'toList')), 'toList'),
+        arrow(g.call('with', c(1), c(2)), g.lst(v('1'), v('2'), X)),
+        # a lambda passed by its (multi-word) keyword is a lambda all the same
+        arrow(g.call('let', k=c(10)), g.mcall(one_two, 'toDict', X, valueSelector=g.bn('*', X, v('k')))),
+        g.mcall(g.mcall(g.lst(c(3)), 'select', g.mcall(one_two, 'toDict', X, valueSelector=g.bn('*', X, c(10)))), 'toList'),
+        g.mcall(g.lst(c(1), c(2), c(3)), 'groupBy', keySelector=g.bn('mod', X, c(2)), valueSelector=g.bn('+', X, c(1))),
+        g.mcall(g.mcall(g.lst(c(1), c(2), c(3)), 'distinct', keySelector=g.bn('mod', X, c(2))), 'toList'),
+        arrow(g.call('def', g.kwd('g'), X), g.mcall(g.mcall(one_two, 'select', g.call('g')), 'toList')),
+        arrow(g.call('def', g.kwd('f'), g.lst(v('1'), v('2'))), arrow(g.call('with', c(7), c(8)), g.call('f', c(1)))),
+    ]
 
 
 def run(rep, tier, seed, keep=False):
@@ -163,11 +181,15 @@ def run(rep, tier, seed, keep=False):
         desc = {}
         gen = Gen(rng, 4)
         n = 8000 if quick else 300000
+        fixed = [(a, dd) for a in fixed_probes() for dd in DOCS]
         for i in range(n):
             d = rng.choice([2, 3, 3, 4] if quick else [2, 3, 4, 4, 5, 6])
             gen.needs_dict = False
-            ast = gen.expr(d, {})
-            data = rng.choice(DOCS[:1] + DOCS[3:4] if gen.needs_dict else DOCS)
+            if i < len(fixed):
+                ast, data = fixed[i]
+            else:
+                ast = gen.expr(d, {})
+                data = rng.choice(DOCS[:1] + DOCS[3:4] if gen.needs_dict else DOCS)
             text = g.render(ast)
             from yaql.language import utils as yutils
             res, _ = real.run(text, data, raw_context={'doc': yutils.convert_input_data(data)})
